@@ -673,6 +673,11 @@ static std::string splitToOne(const TcDesc* d, const Units& src, const Bytes& ex
         if (acc.size() > expect.size() || !std::equal(acc.begin(), acc.end(), expect.begin())) return "block-wise result " + hexB(acc) + " is not a prefix of the one-shot result " + hexB(expect);
         if (t.eaten == 0 || consumed == avail) { if (phase == 0) { phase = 1; avail = src.size(); if (consumed == avail) break; continue; } break; }
     }
+    if (d->icuProvided) for (int i = 0; i < 4 && acc.size() < expect.size(); i++) {     // an ICU converter may still hold output bytes: flush with an empty source
+        ToRes t; callTo(tc, (const XMLCh*)u"", 0, m < 8 ? 8 : m, XMLTranscoder::UnRep_Throw, t);
+        if (!t.bad.empty()) return t.bad; if (t.exc) return std::string("flush threw ") + excName(t.exc);
+        acc.insert(acc.end(), t.out.begin(), t.out.end());
+    }
     if (acc != expect) return "block-wise result " + hexB(acc) + " != expected " + hexB(expect);
     if (consumed != completeUnits) return "consumed " + std::to_string(consumed) + " units, expected " + std::to_string(completeUnits) + " (a lead surrogate at the end of the source must stay uneaten)";
     return "";
@@ -684,6 +689,8 @@ static std::string runSplit(const Req& q, Sum& sum) {
     std::vector<uint32_t> cps = unhexList(get(q, "cps")); std::string dir = get(q, "dir", "from"); long tail = geti(q, "tail", 0);
     Bytes enc; Units units; std::vector<size_t> cEndB, cEndU;
     for (size_t i = 0; i < cps.size(); i++) { Bytes e; int rep = refEncode(d, cps[i], e); if (rep != 1) return "DROP\tunrepresentable or ambiguous code point " + hx(cps[i]) + "\n"; enc.insert(enc.end(), e.begin(), e.end()); unitsOf(cps[i], units); cEndB.push_back(enc.size()); cEndU.push_back(units.size()); }
+    if (dir == "to" && d->kind == K_UCS4 && d->bigEndian != (bool)XMLPlatformUtils::fgXMLChBigEndian && sum.skipping(F_UCS4_SWAP))
+        for (size_t i = 0; i < cps.size(); i++) if (cps[i] >= 0x10000) return std::string("SKIP\t") + F_UCS4_SWAP + "\n";
     if (q.count("py")) { Bytes py = unhexB(get(q, "py")); if (py != enc) return "DISAGREE\tharness reference " + hexB(enc) + " python " + hexB(py) + "\n"; }
     Units expectU = units;
     if (d->kind == K_MB) { if (!refFor(d)->icuDecode(enc, expectU)) return "DROP\tICU cannot decode its own encoding\n"; if (expectU != units) return "DROP\tnot a round-trip mapping in ICU\n"; }
@@ -729,13 +736,17 @@ static std::string runSplit(const Req& q, Sum& sum) {
             std::string why = splitToOne(d, src, expect, complete, m, k, minBytes);
             if (!why.empty()) return "FAIL\t" + item + "\tm=" + std::to_string(m) + "\tk=" + std::to_string(k) + "\tsrc=" + hexU(src) + "\twhy=" + why + "\n";
         }
-        if (!single && tail == 0) {
+        bool strOverflow = d->icuProvided && expect.size() > src.size() * 2 + 4;       // TranscodeToStr's first buffer is 2*len+4 bytes
+        if (strOverflow && sum.skipping(F_ICU_SMALLBUF)) sum.excl[F_ICU_SMALLBUF]++;
+        if (!single && tail == 0 && !(strOverflow && sum.skipping(F_ICU_SMALLBUF))) {
             Tc tc(d); int exc = 0; Bytes got;
             try { TranscodeToStr x(src.empty() ? (const XMLCh*)u"" : &src[0], src.size(), tc.t); got.assign(x.str(), x.str() + x.length()); } catch (const XMLException&) { exc = 1; } catch (...) { exc = 2; }
             if (exc || got != expect) return "FAIL\t" + item + "\tsrc=" + hexU(src) + "\twhy=TranscodeToStr gave " + hexB(got) + " exc=" + std::to_string(exc) + " expected " + hexB(expect) + "\n";
         }
     }
-    return "OK\t" + std::to_string((m1 - m0 + 1)) + "\n";
+    std::string o = "OK\t" + std::to_string((m1 - m0 + 1)) + "\n";
+    for (std::map<std::string, long>::const_iterator i = sum.excl.begin(); i != sum.excl.end(); ++i) o += "EXCL\t" + i->first + "\t" + std::to_string(i->second) + "\n";
+    return o;
 }
 
 // ================================================================================================
